@@ -40,9 +40,25 @@ def adapter_fns(ctx, R):
     return out
 
 
+def upstream_pollers(ctx, R):
+    """Every function body (trait poll functions AND any other method, e.g. a newly added `poll_progress`) that polls an
+    upstream obtained through Option::as_pin_mut: whoever pulls from the upstream must respect the limit."""
+    out = []
+    for b in ctx.facts.fn_bodies():
+        if b.kind == "Closure":
+            continue
+        fl = ctx.flow(b)
+        for bb, t, fn in R.child_poll_sites(b):
+            recv = strip_refs(fl.operand_expr(t["args"][0]))
+            if any(re.search(r"Option::<.*>::as_pin_mut$", c[1] or "") for c in expr_calls(recv)):
+                out.append(b)
+                break
+    return out
+
+
 def queue_field_of(ctx, b):
     """Name and type of the adapter's inner-queue field (a crate collection)."""
-    m = re.match(r"^<([\w:]+)<", b.path)
+    m = re.match(r"^<([\w:]+)<", b.path) or re.match(r"^([\w:]+)::<", b.path)
     adt = ctx.facts.adts.get(m.group(1)) if m else None
     if not adt:
         return None, None, None
